@@ -280,6 +280,15 @@ def r10_4(ctx):
                      for pol in (True, False)) for e in ex)
     ctx.ob('R10.4', 'reaper:status-recorded-for-every-kind-of-exit', ok, je, None,
            'recording does not depend on how the worker was stopped')
+    # the release is per element of the reaper's result: whoever calls the reaper must hand that result to the
+    # release (the supervision tick does); a caller that drops it reaps workers whose slots never come back
+    for qn, fi in sorted(m.funcs.items()):
+        if fi.module.name != 'pool' or fi is mp:
+            continue
+        for (n, c) in q.calls(fi, 'self._join_exited_workers'):
+            ctx.ob('R10.4', 'reaper-called-outside-the-tick:%s' % fi.qual.split(':')[1], False, fi, c,
+                   '%s reaps exited workers itself and does not release one slot per reaped worker: the tick that '
+                   'follows finds nobody to reap, replaces the worker and releases nothing' % fi.qual.split(':')[1])
 
 
 def r10_5(ctx):
@@ -304,6 +313,8 @@ def run(ctx):
 
 _P = 'billiard/pool.py'
 MUTANTS = [
+    ('shrink-reaps-exited-workers-itself', 'billiard/pool.py', "    def shrink(self, n=1):\n        for i, worker in enumerate(self._iterinactive()):\n",
+     "    def shrink(self, n=1):\n        self._join_exited_workers()\n        for i, worker in enumerate(self._iterinactive()):\n", 'R10.4'),
     ('shrink-takes-the-slot-first', 'billiard/pool.py', "        self._initial_value -= 1\n        self.acquire()\n",
      "        self.acquire()\n        self._initial_value -= 1\n", 'R10.1'),
     ('release-check-outside-lock', _P, "        def release(self):\n            cond = self._cond\n            with cond:\n                if self._value < self._initial_value:\n                    self._value += 1\n                    cond.notify_all()\n",
